@@ -1882,6 +1882,38 @@ def _propagate_temporaries(fn):
         if isinstance(x, ast.Assign) and len(x.targets) == 1 and isinstance(x.targets[0], ast.Name) and x.targets[0].id.startswith('__') and \
                 stores.get(x.targets[0].id) == 1 and isinstance(x.value, ast.Name) and stores.get(x.value.id, 0) <= 1 and x.value.id != x.targets[0].id:
             copies[x.targets[0].id] = x.value.id
+    # the other direction: `name = __tmp` where both are bound exactly once: the temporary IS that variable (its earlier uses included)
+    merged = {}
+    for x in ast.walk(fn):
+        if isinstance(x, ast.Assign) and len(x.targets) == 1 and isinstance(x.targets[0], ast.Name) and not x.targets[0].id.startswith('__') and \
+                stores.get(x.targets[0].id) == 1 and isinstance(x.value, ast.Name) and x.value.id.startswith('__') and stores.get(x.value.id) == 1 and x.value.id not in merged:
+            merged[x.value.id] = (x.targets[0].id, x)
+    if merged:
+        drop = {id(st) for (_n, st) in merged.values()}
+
+        class _M(ast.NodeTransformer):
+            def visit_Lambda(self, node):
+                return node
+
+            def visit_FunctionDef(self, node):
+                if node is fn:
+                    self.generic_visit(node)
+                return node
+            visit_AsyncFunctionDef = visit_FunctionDef
+
+            def visit_Name(self, node):
+                if node.id in merged:
+                    return ast.copy_location(ast.Name(id=merged[node.id][0], ctx=node.ctx), node)
+                return node
+
+            def visit_Assign(self, node):
+                if id(node) in drop:
+                    return ast.copy_location(ast.Pass(), node)
+                self.generic_visit(node)
+                return node
+        _M().visit(fn)
+        ast.fix_missing_locations(fn)
+        return _propagate_temporaries(fn)
     if not copies:
         return
 
